@@ -624,7 +624,7 @@ def classify_violations(case, obs, sel, ans, viols):
         return out
     coded = [k for k in ("depth", "depth2d", "slab", "radial") if sel.get(k, "coded") == "coded"]
     if case.get("dz") is None:
-        coded = [k for k in coded if k == "radial"]
+        coded = [k for k in coded if k in ("radial", "depth")]
     if case.get("dx") is not None:
         coded = [k for k in coded if k != "depth"]
     else:
@@ -651,6 +651,8 @@ def classify_violations(case, obs, sel, ans, viols):
         for cb, bad in variants:
             if bad is not None and (not bad if own else v["pix"] not in bad):
                 cls = FLAG_CLASS[cb[0]]
+                if cb[0] == "depth" and case.get("dz") is None:
+                    cls = "dx_omitted_depth_step_from_data"
                 break
         if cls is None:
             cls = {"masked_with_cell": "cell_lost_after_preselection", "wrong_value": "wrong_cell_value",
